@@ -101,6 +101,7 @@ class RCells:
     def __init__(self, name, params, expr, cached=True, allow_none=None, form="lambda", doc=None, tick=True):
         self.tick = tick
         self.terms = None           # deflines layout: list of term expressions (expr is their sum)
+        self.guards = None          # deflines layout: per term 0 plain / 1 try-finally / 2 try-except(never matches)
         self.tickname = name        # the name written into the tick call (survives renames)
         self.name = name
         self.params = [list(p) for p in params]
@@ -114,6 +115,7 @@ class RCells:
         c = RCells(self.name, self.params, self.expr, self.cached, self.allow_none, self.form, self.doc, self.tick)
         c.tickname = self.tickname
         c.terms = self.terms
+        c.guards = self.guards
         return c
 
     def signature(self):
@@ -122,7 +124,7 @@ class RCells:
     def as_dict(self):
         return {"name": self.name, "params": self.params, "expr": self.expr, "cached": self.cached,
                 "allow_none": self.allow_none, "form": self.form, "doc": self.doc, "tick": self.tick,
-                "tickname": self.tickname, "terms": self.terms}
+                "tickname": self.tickname, "terms": self.terms, "guards": self.guards}
 
 
 def make_sig(params):
@@ -406,13 +408,13 @@ class Evaluator:
             env = {p: v for (p, _), v in zip(cdef.params, key)}
             self.trace.entered.append(elem)
             if cdef.terms is not None and cdef.form == "deflines":
-                from .expr import first_term_line
-                base = first_term_line(cdef.as_dict())
+                from .expr import term_lines
+                tl = term_lines(cdef.as_dict())
                 vals = []
                 for j, t in enumerate(cdef.terms):
-                    self.trace.curline[elem] = base + j
+                    self.trace.curline[elem] = tl[j]
                     vals.append(self.ev(t, ctx, env))
-                self.trace.curline[elem] = base + len(cdef.terms)       # the return line adds them up
+                self.trace.curline[elem] = tl[-1]       # the return line adds them up
                 value = vals[0] if vals else 0
                 for v in vals[1:]:
                     value = value + v
